@@ -20,7 +20,8 @@ RULE = ("Unitaries on 2-8 (10 thorough) modes of kinds haar / identity / permuta
         "circuit and 200 direct draws lie within the declared bounds, phases minus ideal phases (mod 2pi) lie "
         "within the offset bounds, the same seed gives the identical circuit, U_full is unitary and U has "
         "singular values <= 1. Non-trivial = a unitary with an exactly-zero or < 1e-8 entry, or a non-constant "
-        "error model; distinct = case JSON.")
+        "error model; distinct = case JSON."
+        " Also: zero-valued loss elements, Unitary objects extended after construction, and every noisy map repeated in a second interpreter with another hash salt.")
 ASSUMPTIONS = [
     "only lossless circuits are mapped (the property's domain)",
     "the upper end of the phase interval is accepted closed in floating point (phase <= float(2*pi))",
